@@ -22,8 +22,8 @@ CONTRACT_GROUPS = ['C13']   # icontract layer (vlib/contracts.py) active inside 
 RULE = ("case = one configuration + point; non-trivial if some constraint kind has a finite bound (info required); distinct key = case index; "
         "monitor_counters count compared entries and how many were violated bounds")
 ASSUMPTIONS = ["with transforms the user-domain result must satisfy the formula with the user-domain bounds (to 1e-9 relative)"]
-REQUIRED = {"quick": {"entries_compared": 20000, "violated_entries": 3000, "mixed_infinite_both_sides": 300, "tracker_checked": 300, "transformed_compared": 1473, "with_mask": 800, "explicit_evaluation_vector": 800, "__nontrivial__": 2000},
-            "thorough": {"entries_compared": 400000, "violated_entries": 60000, "mixed_infinite_both_sides": 6000, "tracker_checked": 6000, "transformed_compared": 24061, "with_mask": 15000, "explicit_evaluation_vector": 15000, "__nontrivial__": 40000}}
+REQUIRED = {"quick": {"entries_compared": 20000, "violated_entries": 3000, "mixed_infinite_both_sides": 300, "tracker_checked": 300, "transformed_compared": 1473, "with_mask": 800, "results_without_functions": 600, "explicit_evaluation_vector": 800, "__nontrivial__": 2000},
+            "thorough": {"entries_compared": 400000, "violated_entries": 60000, "mixed_infinite_both_sides": 6000, "tracker_checked": 6000, "transformed_compared": 24061, "with_mask": 15000, "results_without_functions": 10000, "explicit_evaluation_vector": 15000, "__nontrivial__": 40000}}
 N = {"quick": 6000, "thorough": 100000}
 
 
@@ -87,6 +87,10 @@ def run_case(case, obs):
             m[int(rng.integers(V))] = True
         spec["mask"] = [bool(b) for b in m]
         obs.count("with_mask")
+    if rng.random() < 0.2:
+        # too few successful realizations: the result carries no function values, the differences of the evaluated vector with
+        # the variable bounds and the linear constraints are reported all the same
+        spec["nan"] = [{"call": 0, "r": 0, "p": -1, "col": 0}]
     case["spec"] = spec
     mixed = bool(np.any(~np.isfinite(lb)) and np.any(~np.isfinite(ub)) and (np.any(np.isfinite(lb)) or np.any(np.isfinite(ub))))
     if mixed:
@@ -132,7 +136,7 @@ def run_case(case, obs):
         obs.violation("user_variables", got=xu, want=x)
         return
     if info is None:
-        if need and (np.any((x < lb) | (x > ub)) or n_lin or n_con):
+        if need and (np.any((x < lb) | (x > ub)) or n_lin or (n_con and res.functions is not None)):
             obs.violation("constraint_info_missing", lb=lb, ub=ub, x=x, n_lin=n_lin, n_con=n_con)
         return
     # variable bounds
@@ -166,6 +170,9 @@ def run_case(case, obs):
         else:
             _formula(obs, "nonlinear", cval, clo, chi, info.nonlinear_lower, info.nonlinear_upper, info.nonlinear_violation, rt)
             maxviol = max(maxviol, float(np.max(np.maximum(np.maximum(clo - cval, cval - chi), 0.0))))
+    if res.functions is None:
+        obs.count("results_without_functions")
+        return
     # feasibility as seen by the tracker
     tracked = plan.get(tracker, "results")
     if tol is None:
